@@ -9,6 +9,7 @@
 #include <vector>
 #include <map>
 #include <unistd.h>
+#include <sys/time.h>
 #include <exception>
 
 namespace vt {
@@ -157,7 +158,13 @@ inline bool read_line(std::string &line) {
 // One history normally takes micro- to milliseconds. A history that runs for a whole minute is a call
 // that does not return (e.g. a walk over a structure that became cyclic): it is recorded as an event
 // and the process ends; the driver restarts after it.
-inline void arm_watchdog() { alarm(60); }
+// The budget is CPU time of the process (ITIMER_PROF), not wall-clock time: a busy machine must not turn a slow run into
+// a verdict.  A wall-clock alarm ten times as long is only a backstop for a process that sleeps forever.
+inline void arm_watchdog() {
+	struct itimerval tv; memset(&tv, 0, sizeof tv); tv.it_value.tv_sec = 60;
+	setitimer(ITIMER_PROF, &tv, nullptr);
+	alarm(600);
+}
 inline void hist_done(long long i) { Ev("HistDone").i("i", i).emit(); out().flush(); arm_watchdog(); }
 
 // ---------------------------------------------------------------- args
@@ -211,8 +218,9 @@ inline void install_terminate() {
 	if(__sanitizer_set_death_callback) __sanitizer_set_death_callback([] { out().flush(); });
 	{
 		struct sigaction sa; memset(&sa, 0, sizeof sa);
-		sa.sa_handler = [](int) { out().flush(); const char m[] = "{\"e\":\"hang\",\"why\":\"a library call did not return within 60 s\"}\n"; (void)!::write(1, m, sizeof m - 1); _exit(74); };
+		sa.sa_handler = [](int) { out().flush(); const char m[] = "{\"e\":\"hang\",\"why\":\"a library call did not return within 60 s of CPU time\"}\n"; (void)!::write(1, m, sizeof m - 1); _exit(74); };
 		sigaction(SIGALRM, &sa, nullptr);
+		sigaction(SIGPROF, &sa, nullptr);
 		arm_watchdog();
 	}
 	for(int sig : {SIGILL, SIGABRT, SIGFPE, SIGBUS}) {
